@@ -37,6 +37,36 @@ pub fn token_string(mut i: usize) -> String {
     toks.concat()
 }
 
+/// Alphabet of the robotics expression mini-language (numbers, operators,
+/// parentheses, functions, constants, sexagesimal colon, underscore, blanks, a
+/// multi-byte character, a hex prefix letter).
+pub const ROBOTICS_ALPHABET: [&str; 22] =
+    ["1", "0", ".", "5", "e", "+", "-", "*", "/", "(", ")", "deg", "rad", "pi", "tau", "inf", "nan", ":", "_", " ", "é", "x"];
+
+pub fn robotics_space(max_len: usize) -> usize {
+    (1..=max_len).map(|l| ROBOTICS_ALPHABET.len().pow(l as u32)).sum()
+}
+
+pub fn robotics_string(mut i: usize) -> String {
+    let n = ROBOTICS_ALPHABET.len();
+    let mut len = 1;
+    loop {
+        let c = n.pow(len as u32);
+        if i < c {
+            break;
+        }
+        i -= c;
+        len += 1;
+    }
+    let mut toks = Vec::with_capacity(len);
+    for _ in 0..len {
+        toks.push(ROBOTICS_ALPHABET[i % n]);
+        i /= n;
+    }
+    toks.reverse();
+    toks.concat()
+}
+
 pub fn random_token_string(rng: &mut Rng, len: usize) -> String {
     (0..len).map(|_| *rng.pick(&ALPHABET)).collect()
 }
